@@ -21,7 +21,10 @@ NSCHED = {'quick': 320, 'thorough': 3840}
 KEYS = ['a', 'b', 'k1', 7, 'p-q']
 VALS = [1, 'v', (2, 3), None, 2.5]
 SCEN = ['ww', 'ww', 'wr-other', 'wr-other', 'wr-list', 'wr-list', 'wr-list', 'over-r', 'over-list', 'del-r', 'del-list', 'www', 'f-wr', 'f-wo', 'f-wo', 'f-wr',
-        'q-ww', 'q-over-r', 'q-wr-list', 'q-upd-r', 'q-hold', 'wr-list-fine', 'wr-list-fine', 'over-len']
+        'q-ww', 'q-over-r', 'q-wr-list', 'q-upd-r', 'q-hold', 'wr-list-fine', 'wr-list-fine', 'over-len', 'f-upd-list']
+
+
+MONITOR_ONLY = ('f-upd-list',)         # scenarios the schedule model does not replay (multi-entry update of a file archive against bulk views)
 
 
 def gen(tier, idx):
@@ -49,6 +52,13 @@ def gen(tier, idx):
     elif sc == 'del-r': k = present[0]; procs = [('writer', [r.choice(['delitem', 'pop']), k]), ('reader', [r.choice(['getitem', 'contains', 'get']), k])]
     elif sc == 'del-list': k = present[0]; procs = [('writer', [r.choice(['delitem', 'pop']), k]), ('reader', listing())]
     elif sc == 'f-wr': procs = [('writer', ['setitem', r.choice(keys), nv()]), ('reader', [r.choice(['asdict', 'getitem', 'len']), present[0]][:2])]
+    elif sc == 'f-upd-list':
+        # a single-file archive: one update() of two existing entries (and a new one) while another process takes a bulk view
+        # (items / __asdict__ / cache.load()): the view is the whole earlier or the whole later dictionary
+        while len(prior) < 2: prior = prior + [(keys[len(prior)], r.choice(VALS))]
+        present = [k for k, _ in prior]; absent = [k for k in keys if k not in present]
+        procs = [('writer', ['update', [(present[0], nv(dict(prior)[present[0]])), (present[1], nv(dict(prior)[present[1]])), (absent[0], nv())]]),
+                 ('reader', [['load', 'items', 'asdict'][(idx // len(SCEN)) % 3]])]
     elif sc == 'f-wo': procs = [('writer', ['setitem', absent[0], nv()]), ('writer', ['open', False])]
     elif sc == 'q-ww': procs = [('writer', ['setitem', absent[0], nv()]), ('writer', ['setitem', absent[1], nv()])]
     elif sc == 'q-over-r': k = present[0]; procs = [('writer', ['setitem', k, nv(dict(prior)[k])]), ('reader', [r.choice(['getitem', 'contains', 'get', 'asdict']), k])]
@@ -63,6 +73,8 @@ def gen(tier, idx):
     if sc == 'f-wr' and procs[1][1][0] in ('asdict', 'len'): procs[1] = ('reader', [procs[1][1][0]])
     policy = r.choice(['random', 'random', 'random', 'first', 'second', 'alternate', 'after-rename', 'after-rename'])
     if sc == 'q-hold': policy = 'hold'
+    # (the reader takes k steps, the writer does ALL its work, the reader finishes: the whole update lands between two of the reader's reads)
+    if sc == 'f-upd-list': policy = 'rpos:%d' % (1 + (idx // (3 * len(SCEN))) % 4)
     if sc in ('f-wr', 'wr-other', 'over-r', 'del-r', 'q-over-r', 'q-upd-r', 'over-len'):
         # the reader takes one step: put it at every position of the writer's run in turn (exhaustive for these scenarios)
         policy = 'pos:%d' % ((idx // len(SCEN)) % 16)
@@ -178,6 +190,9 @@ def run_schedule(case):
                 elif 0 in live and done0 < jw: i = 0
                 elif 1 in live: i = 1
                 else: i = live[0]
+            elif case['policy'].startswith('rpos:'):
+                kr = int(case['policy'][5:]); done1 = len([e for e in sched if e[0] == 1])
+                i = 1 if (1 in live and done1 < kr) or 0 not in live else 0
             elif case['policy'].startswith('wrr:'):
                 # writer w1 steps; reader kr calls; writer UNTIL IT HAS RENAMED its staging directory into place; reader to its end; writer's rest
                 w1, kr = map(int, case['policy'][4:].split(':'))
@@ -293,6 +308,8 @@ def monitor(tr):
             for k, v in d.items():
                 if not stored[k]: bad('reader', 'phantom', '%s lists %s, never stored' % (op[0], k)); break
                 if v not in stored[k]: bad('reader', 'value', '%s gives %s -> %s, never stored for it' % (op[0], k, v)); break
+            if cfg['kind'] == 'file' and len([1 for role_, _ in procs if role_ == 'writer']) == 1 and d != old and d != new:
+                bad('reader', 'torn-view-' + op[0], '%s of a single-file archive gives %r: neither the earlier dictionary %r nor the later one %r' % (op[0], d, old, new))
             for k in old:
                 if k not in touched and d.get(k) != old[k]: bad('reader', 'absent', '%s misses or changes the untouched key %s' % (op[0], k)); break
                 if k in touched and k not in removed and k not in d: bad('reader', 'absent', '%s misses key %s, which is stored throughout (being overwritten)' % (op[0], k)); break
@@ -310,7 +327,7 @@ def explore(prop, tier):
     errors = [t['err'] for t in trs if t['err']]
     trs = [t for t in trs if not t['err']]
     import run_sched_model
-    divs = run_sched_model.compare([t for t in trs if not t['case'].get('fine') and t['case']['cfg']['kind'] != 'sql'])
+    divs = run_sched_model.compare([t for t in trs if not t['case'].get('fine') and t['case']['cfg']['kind'] != 'sql' and t['case']['scen'] not in MONITOR_ONLY])
     viols = []
     tags = collections.Counter(); nontriv = 0
     for tr in trs:
@@ -349,7 +366,7 @@ def replay(prop, obj):
     tr = run_schedule(case)
     if tr['err']: raise NoVerdict(tr['err'])
     import run_sched_model
-    divs = run_sched_model.compare([tr]) if not tr['case'].get('fine') and tr['case']['cfg']['kind'] != 'sql' else []
+    divs = run_sched_model.compare([tr]) if not tr['case'].get('fine') and tr['case']['cfg']['kind'] != 'sql' and tr['case']['scen'] not in MONITOR_ONLY else []
     return dict(violations=[dict(prop='C14', sig=v['sig'], msg=v['msg'], i=0) for v in monitor(tr)], divergence=divs[0]['detail'] if divs else None)
 
 
